@@ -1,4 +1,255 @@
-//! harness family c08 (stub until the family is built)
+//! harness family c08: sector/block storage is exact and non-interfering (property C08)
+//!
+//! Part A (idx 0..): nibble codecs 4&4, 6&2, 5&3 on single tracks made with the public
+//!   `disk525::format_std16_track/format_std13_track` and driven through the public `TrackBits`
+//!   trait object; the data-field nibbles are cut out of the track and compared with the Lean model.
+//! Part B (idx 100000..): random op sequences on whole images of all ten formats (see below).
 use crate::util::*;
+use a2kit::img::disk525;
+use a2kit::img::{NibbleError, TrackBits};
 
-pub fn run(_ctx: &mut Ctx) {}
+const SKEW13: [u8; 13] = [0, 10, 7, 4, 1, 11, 8, 5, 2, 12, 9, 6, 3];
+
+fn nib_err(e: &NibbleError) -> &'static str {
+    match e {
+        NibbleError::BadTrack => "bad-track",
+        NibbleError::InvalidByte => "invalid-byte",
+        NibbleError::BadChecksum => "bad-checksum",
+        NibbleError::BitPatternNotFound => "pattern-not-found",
+        NibbleError::SectorNotFound => "sector-not-found",
+        NibbleError::NibbleType => "nibble-type",
+    }
+}
+
+/// sector contents: the classes named in the property's tie
+fn sector_content(rng: &mut Rng, class: usize, sub: usize) -> (Vec<u8>, String) {
+    match class {
+        0 => (rng.bytes(256), "random".into()),
+        1 => { let b = rng.byte(); (vec![b; 256], "all-equal".into()) }
+        2 => { let mut v = vec![0u8; 256]; let p = rng.below(256); v[p] = 1 << rng.below(8); (v, "single-bit".into()) }
+        3 => {
+            // byte value `sub % 256` at one of three positions, rest random-but-fixed filler
+            let val = (sub % 256) as u8;
+            let pos = [0usize, 85, 86, 171, 172, 254, 255, 128][(sub / 256) % 8];
+            let fill = if rng.chance(50) { 0 } else { rng.byte() };
+            let mut v = vec![fill; 256];
+            v[pos] = val;
+            (v, "byte-at-pos".into())
+        }
+        4 => { let mut v = vec![0xffu8; 256]; let p = rng.below(256); v[p] ^= 1 << rng.below(8); (v, "single-zero-bit".into()) }
+        _ => { let a = rng.byte(); let b = rng.byte(); ((0..256).map(|i| if i % 2 == 0 { a } else { b }).collect(), "alternating".into()) }
+    }
+}
+
+/// Cut the data field nibbles of the sector with address `sector` out of an aligned nibble stream.
+/// `apro3` is the third address prolog byte (0x96 / 0xB5), `n` the number of data nibbles.
+fn data_field(nibs: &[u8], apro3: u8, sector: u8, n: usize) -> Option<(usize, Vec<u8>)> {
+    let len = nibs.len();
+    let mut i = 0;
+    while i + 14 < len {
+        if nibs[i] == 0xd5 && nibs[i + 1] == 0xaa && nibs[i + 2] == apro3 {
+            let sec = disk525::decode_44([nibs[i + 7], nibs[i + 8]]);
+            if sec == sector {
+                // data prolog must follow within the gap
+                let mut j = i + 11;
+                while j + 3 + n <= len && j < i + 11 + 60 {
+                    if nibs[j] == 0xd5 && nibs[j + 1] == 0xaa && nibs[j + 2] == 0xad {
+                        return Some((j + 3, nibs[j + 3..j + 3 + n].to_vec()));
+                    }
+                    j += 1;
+                }
+                return None;
+            }
+            i += 11;
+        } else {
+            i += 1;
+        }
+    }
+    None
+}
+
+fn addr_field(nibs: &[u8], apro3: u8) -> Option<Vec<u8>> {
+    for i in 0..nibs.len().saturating_sub(11) {
+        if nibs[i] == 0xd5 && nibs[i + 1] == 0xaa && nibs[i + 2] == apro3 {
+            return Some(nibs[i + 3..i + 11].to_vec());
+        }
+    }
+    None
+}
+
+struct TrackCase {
+    six_two: bool,
+    sync_bits: usize,
+    vol: u8,
+    track: u8,
+}
+
+fn make_track(tc: &TrackCase) -> (Vec<u8>, Box<dyn TrackBits>) {
+    let buf_len = if tc.sync_bits == 8 { 6656 } else { 6646 };
+    if tc.six_two { disk525::format_std16_track(tc.vol, tc.track, buf_len, tc.sync_bits) }
+    else { disk525::format_std13_track(tc.vol, tc.track, buf_len, tc.sync_bits) }
+}
+
+fn codec_case(ctx: &mut Ctx, gidx: usize, idx: usize, rng: &mut Rng) {
+    let six_two = idx % 2 == 0;
+    let nsec: usize = if six_two { 16 } else { 13 };
+    let nn = if six_two { 343 } else { 411 };
+    let (enc_op, dec_op) = if six_two { ("enc62", "dec62") } else { ("enc53", "dec53") };
+    let apro3 = if six_two { 0x96 } else { 0xb5 };
+    let sync_bits = match (idx / 2) % 3 { 0 => 8, 1 => if six_two { 10 } else { 9 }, _ => *rng.pick(&[8usize, 9, 10]) };
+    let tc = TrackCase { six_two, sync_bits, vol: rng.byte(), track: rng.below(35) as u8 };
+    let class = if idx < 4096 { 3 } else { [0, 0, 0, 1, 2, 4, 5, 3][rng.below(8)] };
+    let nwrites = 1 + rng.below(3);
+    let mut desc = format!("idx={} codec={} sync={} vol={} track={}", gidx, if six_two { "62" } else { "53" }, sync_bits, tc.vol, tc.track);
+    let mut canon: Vec<u8> = vec![six_two as u8, sync_bits as u8];
+    let res = guarded(|| {
+        let mut out: Vec<(String, String)> = Vec::new(); // Q lines
+        let mut fails: Vec<(String, String)> = Vec::new(); // (oracle, sig)
+        let (mut bits, mut obj) = make_track(&tc);
+        if rng.chance(50) { obj.set_bit_ptr(rng.below(obj.bit_count())); }
+        let mut expect: Vec<Vec<u8>> = vec![vec![0u8; 256]; nsec];
+        let mut written: Vec<(u8, Vec<u8>)> = Vec::new();
+        for w in 0..nwrites {
+            let sector = rng.below(nsec) as u8;
+            let (dat, cls) = sector_content(rng, class, idx / 2 + w * 977);
+            match obj.write_sector(&mut bits, &dat, tc.track, sector) {
+                Ok(()) => {}
+                Err(e) => { fails.push(("codec-write-accepted".into(), format!("codec/write-refused/{}", nib_err(&e)))); continue; }
+            }
+            expect[sector as usize] = dat.clone();
+            written.push((sector, dat.clone()));
+            // model comparison: the nibbles now in the data field
+            let save = obj.get_bit_ptr();
+            let nibs = obj.to_nibbles(&bits);
+            obj.set_bit_ptr(save);
+            match data_field(&nibs, apro3, sector, nn) {
+                Some((_, field)) => out.push((format!("c08 {} {}", enc_op, hx(&dat)), hx(&field))),
+                None => fails.push(("codec-field-present".into(), "codec/data-field-not-found".into())),
+            }
+            // direct oracle: everything on the track reads as expected, in a random order
+            let mut order: Vec<usize> = (0..nsec).collect();
+            for i in (1..nsec).rev() { let j = rng.below(i + 1); order.swap(i, j); }
+            for s in order {
+                match obj.read_sector(&bits, tc.track, s as u8) {
+                    Ok(got) => if got != expect[s] {
+                        let sig = if s as u8 == sector { "codec/readback-differs" } else { "codec/other-sector-changed" };
+                        fails.push(("codec-readback".into(), sig.into()));
+                    },
+                    Err(e) => fails.push(("codec-readback".into(), format!("codec/read-refused/{}", nib_err(&e)))),
+                }
+            }
+            // wrong track number in the request must be refused
+            if w == 0 {
+                let wrong = tc.track.wrapping_add(1 + rng.below(200) as u8);
+                if wrong != tc.track {
+                    if let Ok(_) = obj.read_sector(&bits, wrong, sector) { fails.push(("codec-wrong-track".into(), "codec/wrong-track-accepted".into())); }
+                }
+                if let Ok(_) = obj.read_sector(&bits, tc.track, nsec as u8 + rng.below(200) as u8) { fails.push(("codec-wrong-sector".into(), "codec/missing-sector-accepted".into())); }
+            }
+            desc += &format!(" w{}=({},{})", w, sector, cls);
+            canon.push(sector); canon.extend_from_slice(&dat);
+        }
+        // decoder on damaged fields (aligned 8-bit tracks only, where a byte is a nibble)
+        if sync_bits == 8 && !written.is_empty() {
+            let (sector, _) = written[written.len() - 1].clone();
+            // position of the field in the raw buffer = position in the aligned stream from the start
+            if let Some((off, field)) = data_field(&bits, apro3, sector, nn) {
+                let mut dmg = field.clone();
+                let kind = rng.below(4);
+                let npos = 1 + rng.below(3);
+                for _ in 0..npos {
+                    let p = rng.below(nn);
+                    dmg[p] = match kind {
+                        0 => 0x80 | rng.byte(),                       // any byte with the high bit set
+                        1 => field[rng.below(nn)],                    // some valid disk byte
+                        2 => *rng.pick(&[0xd5u8, 0xaa, 0x80, 0x95, 0x94]), // never in a table
+                        _ => dmg[p] ^ (1 << rng.below(7)),
+                    };
+                }
+                bits[off..off + nn].copy_from_slice(&dmg);
+                let ans = match obj.read_sector(&bits, tc.track, sector) {
+                    Ok(v) => format!("ok {}", hx(&v)),
+                    Err(e) => format!("err {}", nib_err(&e)),
+                };
+                out.push((format!("c08 {} {}", dec_op, hx(&dmg)), ans));
+                bits[off..off + nn].copy_from_slice(&field);
+            }
+        }
+        // decoder on the intact field of the last write
+        if let Some((sector, _)) = written.last().cloned() {
+            let save = obj.get_bit_ptr();
+            let nibs = obj.to_nibbles(&bits);
+            obj.set_bit_ptr(save);
+            if let Some((_, field)) = data_field(&nibs, apro3, sector, nn) {
+                let ans = match obj.read_sector(&bits, tc.track, sector) {
+                    Ok(v) => format!("ok {}", hx(&v)),
+                    Err(e) => format!("err {}", nib_err(&e)),
+                };
+                out.push((format!("c08 {} {}", dec_op, hx(&field)), ans));
+            }
+        }
+        (out, fails, desc.clone())
+    });
+    match res {
+        Ok((out, fails, d)) => {
+            for (q, a) in &out { ctx.out.q(q, a); }
+            if fails.is_empty() { ctx.out.oracle(true, "codec-track", "-", &d); }
+            for (o, s) in &fails { ctx.out.oracle(false, o, s, &d); }
+            ctx.out.sample(&d);
+            ctx.out.count(if six_two { "codec:62" } else { "codec:53" });
+            ctx.out.count(&format!("codec:sync{}", sync_bits));
+        }
+        Err(p) => ctx.out.oracle(false, "codec-no-panic", &format!("panic:{}", panic_site(&p)), &desc),
+    }
+    ctx.out.case(&canon, true);
+}
+
+/// 4&4: `encode_44` is private; it is observable in the address field of a formatted track
+/// (volume, track, sector, checksum), `decode_44` is public.
+fn addr44_case(ctx: &mut Ctx, idx: usize, rng: &mut Rng) {
+    let v = (idx % 256) as u8;
+    let track = rng.byte();
+    let six_two = rng.chance(50);
+    let desc = format!("idx={} addr44 vol={} track={} six_two={}", idx, v, track, six_two);
+    let res = guarded(|| {
+        let tc = TrackCase { six_two, sync_bits: 8, vol: v, track };
+        let (bits, _obj) = make_track(&tc);
+        addr_field(&bits, if six_two { 0x96 } else { 0xb5 })
+    });
+    match res {
+        Ok(Some(f)) => {
+            ctx.out.q(&format!("c08 enc44 {}", hx(&[v])), &hx(&f[0..2]));
+            ctx.out.q(&format!("c08 enc44 {}", hx(&[track])), &hx(&f[2..4]));
+            ctx.out.q(&format!("c08 enc44 {}", hx(&[v ^ track ^ 0])), &hx(&f[6..8])); // first sector is 0
+            let back = disk525::decode_44([f[0], f[1]]);
+            ctx.out.oracle(back == v, "codec44-roundtrip", "codec/44/roundtrip", &desc);
+            let a = rng.byte(); let b = rng.byte();
+            ctx.out.q(&format!("c08 dec44 {}", hx(&[a, b])), &hx(&[disk525::decode_44([a, b])]));
+        }
+        Ok(None) => ctx.out.oracle(false, "codec44-field-present", "codec/44/address-field-not-found", &desc),
+        Err(p) => ctx.out.oracle(false, "codec-no-panic", &format!("panic:{}", panic_site(&p)), &desc),
+    }
+    ctx.out.count("codec:44");
+    ctx.out.case(&[4, 4, v, track], true);
+}
+
+pub fn run(ctx: &mut Ctx) {
+    let mut rng = Rng::new(ctx.seed);
+    // Part A: 4&4 (all 256 values), then track codecs; the first 4096 indices walk every byte value
+    // at 8 positions for both codecs, the rest is the random mix
+    let n44 = 256;
+    for idx in 0..n44 {
+        let mut r = rng.fork(idx as u64);
+        if ctx.out.wants(idx) { addr44_case(ctx, idx, &mut r); }
+    }
+    let base = 1000;
+    let ncodec = ctx.n(1536, 4096 + 8000);
+    for k in 0..ncodec {
+        // quick tier: spread over the 4096 structured cases with a stride coprime to 4096
+        let sub = if ctx.tier_thorough { k } else if k < 1024 { (k * 1365 + (ctx.seed as usize % 4096)) % 4096 } else { 4096 + k };
+        let idx = base + sub;
+        let mut r = rng.fork(idx as u64);
+        if ctx.out.wants(idx) { codec_case(ctx, idx, sub, &mut r); }
+    }
+    let _ = SKEW13;
+}
